@@ -604,10 +604,71 @@ def close_race_case(seed: int) -> Optional[dict]:
     return None
 
 
+def many_subscribers_case(seed: int) -> Optional[dict]:
+    """One topic with many subscribers (more than any batch size an implementation may use), some leaving after their first item."""
+    from nextline.utils.pubsub.broker import PubSub
+    from nextline.utils.pubsub.item import PubSubItem
+    rng = random.Random(seed)
+    n_sub = rng.choice([65, 70, 100, 130, 200])
+    n_items = rng.randint(1, 3)
+    via_broker = rng.random() < 0.5
+    leavers = set(rng.sample(range(n_sub), rng.choice([0, 1, 3])))
+    chooser = ctl.Rand(random.Random(seed * 5 + 2)) if rng.random() < 0.5 else ctl.Fifo()
+    got: list[list] = [[] for _ in range(n_sub)]
+    done = [False] * n_sub
+    started = [False] * n_sub
+
+    async def main() -> None:
+        item = PubSubItem()
+        broker = PubSub()
+
+        async def subscriber(i: int) -> None:
+            agen = broker.subscribe('k', last=False) if via_broker else item.subscribe(last=False)
+            started[i] = True
+            async for x in agen:
+                got[i].append(x)
+                if i in leavers:
+                    break
+            await agen.aclose()
+            done[i] = True
+        subs = [asyncio.ensure_future(subscriber(i)) for i in range(n_sub)]
+        while not all(started):
+            await asyncio.sleep(0)
+        await asyncio.sleep(0)
+        for j in range(n_items):
+            if via_broker:
+                await broker.publish('k', j)
+            else:
+                await item.publish(j)
+            await asyncio.sleep(0)
+        if via_broker:
+            await broker.end('k')
+        else:
+            await item.aclose()
+        await asyncio.wait_for(asyncio.gather(*subs), timeout=5)
+    try:
+        ctl.run(main, chooser)
+    except (Exception, ctl.StepBudgetExceeded) as e:  # noqa
+        missing = [i for i in range(n_sub) if not done[i]]
+        return {'seed': seed, 'many': True, 'messages': [f'{n_sub} subscribers on one topic: {type(e).__name__} — subscribers {missing[:8]} did not terminate '
+                                                             f'after the topic ended'], 'schedule': getattr(chooser, 'trace', None)}
+    msgs = []
+    want = list(range(n_items))
+    for i in range(n_sub):
+        if i in leavers:
+            if got[i] != want[:1]:
+                msgs.append(f'{n_sub} subscribers: subscriber {i} (leaves after its first item) received {got[i]}')
+        elif got[i] != want:
+            msgs.append(f'{n_sub} subscribers, {len(leavers)} leaving early: subscriber {i} received {got[i]}, published {want}')
+    if msgs:
+        return {'seed': seed, 'many': True, 'messages': msgs[:5], 'schedule': getattr(chooser, 'trace', None)}
+    return None
+
+
 def _conc_shard(seeds: list) -> list:
     out = []
     for s, vb in seeds:
-        r = close_race_case(s) if vb == 'close-race' else concurrent_case(s, vb)
+        r = close_race_case(s) if vb == 'close-race' else many_subscribers_case(s) if vb == 'many' else concurrent_case(s, vb)
         out.append((s, vb, r))
     return out
 
@@ -739,7 +800,8 @@ def run(chk: common.Check) -> None:
     with mp.get_context('fork').Pool(nshards) as pool:
         results = pool.map(_shard, shards)
         nconc = 300 if chk.tier == 'quick' else 5000
-        cs = [(chk.seed * 100003 + i, i % 2 == 1) for i in range(nconc)] + [(chk.seed * 100019 + i, 'close-race') for i in range(nconc)]
+        cs = [(chk.seed * 100003 + i, i % 2 == 1) for i in range(nconc)] + [(chk.seed * 100019 + i, 'close-race') for i in range(nconc)] + \
+            [(chk.seed * 100043 + i, 'many') for i in range(32 if chk.tier == 'quick' else 400)]
         conc = pool.map(_conc_shard, [cs[i::nshards] for i in range(nshards)])
     impl: dict[int, tuple[list[str], list[str]]] = {}
     for sh in results:
